@@ -152,6 +152,12 @@ namespace awkward {
 
   const BuilderPtr
   StringBuilder::string(const char* x, int64_t length, const char* encoding) {
+    if (encoding != encoding_) {
+      // a bytestring among strings (or the reverse) is a different type
+      BuilderPtr out = UnionBuilder::fromsingle(options_, shared_from_this());
+      out.get()->string(x, length, encoding);
+      return out;
+    }
     if (length < 0) {
       for (int64_t i = 0;  x[i] != 0;  i++) {
         content_.append((uint8_t)x[i]);
